@@ -18,21 +18,21 @@ func init() {
 	core.Register(&core.Prop{
 		ID:    "C11",
 		Level: "exploration",
-		Rule: "case = multiset of (value, dyadic weight in (0,2^20]) with total weight W from 2^-10 upward (half of the cases W<1), reached by weighted adds or by reweighting down, on every store kind (collapsing ones wide enough not to fold) and mapping kind; q grid incl. 0, 1, cumulative-interval boundaries; " +
+		Rule: "case = multiset of (value, dyadic weight in (0,2^20]) with total weight W from 2^-10 upward (half of the cases W<1), reached by weighted adds or by reweighting down (a quarter of the cases on an object that held as many other values before and was cleared), on every store kind (collapsing ones wide enough not to fold) and mapping kind; q grid incl. 0, 1, cumulative-interval boundaries; " +
 			"oracle: the answer is within (alpha+64u) of some absorbed item whose cumulative-weight interval is within distance 1 of q*(W-1), lies within [GetMinValue, GetMaxValue], is >=0 if nothing negative was absorbed, <=0 if nothing positive, and 0 only if the zero bucket holds weight. " +
 			"Non-trivial = W<1 or >=1 non-integer weight; distinct = hash of (mapping, store, items).",
 		Cases:     core.Scale(150000, 4000000),
-		Mandatory: []string{"oracle.weighted_quantile_checks", "total_weight.lt1", "total_weight.ge1", "reached_by.reweight", "reached_by.weighted_adds", "reached_by.reweight_then_more_adds", "query.on_interval_boundary"},
+		Mandatory: []string{"oracle.weighted_quantile_checks", "total_weight.lt1", "total_weight.ge1", "reached_by.reweight", "reached_by.weighted_adds", "reached_by.reweight_then_more_adds", "query.on_interval_boundary", "reached_by.reuse_after_clear"},
 		Run:       runC11,
 	})
 	core.Register(&core.Prop{
 		ID:    "C13",
 		Level: "exploration",
-		Rule: "case = sketch in a reachable state (both variants, any store and mapping kind) receiving refused calls: Add/AddWithCount with NaN, +-Inf, +-MaxFloat64, +-nextafter(MaxIndexable,inf), negative weights (-1, -2^-20), quantiles q in {NaN, -2^-1074, nextafter(1,2), +-Inf, -1, 2} single and batch and on empty sketches, MergeWith of a sketch with another kind/alpha/offset, Reweight(0), Reweight(-w); " +
+		Rule: "case = sketch in a reachable state (both variants, any store and mapping kind) receiving refused calls: Add/AddWithCount with NaN, +-Inf, +-MaxFloat64, +-nextafter(MaxIndexable,inf), negative weights (-1, -2^-20), quantiles q in {NaN, -2^-1074, nextafter(1,2), +-Inf, -1, 2} single and batch and on empty sketches (also sketches whose every weight underflowed to zero, count 0: quantile queries refused), MergeWith of a sketch with another kind/alpha/offset, Reweight(0), Reweight(-w); " +
 			"oracle: documented sentinel error (either when two rules apply), full observation identical before/after; valid boundary inputs (+-MaxIndexable, its inner neighbours, -0, weight 0 and -0) accepted; constructors over finite parameters return an error or a usable object, never (nil,nil). " +
 			"Non-trivial = non-empty sketch state and >=10 refused calls; distinct = hash of state and calls.",
 		Cases:     core.Scale(40000, 1000000),
-		Mandatory: []string{"oracle.refused_calls", "oracle.state_unchanged", "oracle.accepted_boundary", "oracle.constructor_checks", "refused.nan_quantile", "refused.zero_weight_invalid_value_exact", "refused.merge_mismatch", "refused.merge_mismatch_empty_argument", "constructor.tiny_accuracy"},
+		Mandatory: []string{"oracle.refused_calls", "oracle.state_unchanged", "oracle.accepted_boundary", "oracle.constructor_checks", "refused.nan_quantile", "refused.zero_weight_invalid_value_exact", "refused.merge_mismatch", "refused.merge_mismatch_empty_argument", "constructor.tiny_accuracy", "state.all_weights_underflowed"},
 		Run:       runC13,
 	})
 }
@@ -114,6 +114,35 @@ func runC11(c *core.Ctx) {
 			}
 		}
 		return true
+	}
+	if r.P(0.25) {
+		// an earlier life of the same object: as many values in other bins, queried, then cleared
+		shift := []float64{1.5, 0.5, 3, 1.0 / 3, 1.1, 0.9}[r.Intn(6)]
+		var err error
+		if c.Guard("earlier life", func() {
+			for _, it := range items {
+				v := it.V * shift
+				if a := math.Abs(v); a > m.Max || (a < m.Min*4 && a != 0) {
+					v = it.V
+				}
+				if err = s.I().AddWithCount(v, it.W); err != nil {
+					return
+				}
+			}
+			if r.Bool() {
+				s.I().GetValueAtQuantile(r.Float())
+				s.I().GetMinValue()
+			}
+			s.I().Clear()
+		}) {
+			return
+		}
+		if err != nil {
+			c.Failf("AddWithCount.rejected", "earlier life: %v", err)
+			return
+		}
+		c.Logf("earlier life: the same %d weights on values scaled by %v, then Clear", len(items), shift)
+		c.Count("reached_by.reuse_after_clear", 1)
 	}
 	if !addAll(items) {
 		return
@@ -383,7 +412,20 @@ func runC13(c *core.Ctx) {
 	}
 	s := st.s
 	k := s.I()
-	empty := k.IsEmpty()
+	weightless := false
+	if !k.IsEmpty() && r.P(0.12) {
+		// every weight underflows to zero: the sketch holds no weight at all (count 0) although its stores still
+		// span indexes; quantile queries have nothing to answer from
+		if c.Guard("Reweight", func() { k.Reweight(0x1p-1000); k.Reweight(0x1p-1000) }) {
+			return
+		}
+		weightless = k.GetCount() == 0
+		c.Logf("Reweight(2^-1000) twice: count %v", k.GetCount())
+		if weightless {
+			c.Count("state.all_weights_underflowed", 1)
+		}
+	}
+	empty := k.IsEmpty() || weightless
 	before := mon.Observe(s, nil)
 	refused := 0
 	// unchanged compares the observation with the one taken before the refused calls
@@ -485,8 +527,10 @@ func runC13(c *core.Ctx) {
 			name := "GetValueAtQuantile(" + fmtF(q) + ") on an empty sketch"
 			expect(name, call(name, func() error { _, err := k.GetValueAtQuantile(q); return err }))
 		}
-		expect("GetMinValue on an empty sketch", call("GetMinValue", func() error { _, err := k.GetMinValue(); return err }))
-		expect("GetMaxValue on an empty sketch", call("GetMaxValue", func() error { _, err := k.GetMaxValue(); return err }))
+		if !weightless {
+			expect("GetMinValue on an empty sketch", call("GetMinValue", func() error { _, err := k.GetMinValue(); return err }))
+			expect("GetMaxValue on an empty sketch", call("GetMaxValue", func() error { _, err := k.GetMaxValue(); return err }))
+		}
 		c.Count("refused.empty_sketch_queries", 1)
 	}
 	// reweight
